@@ -268,6 +268,17 @@ def check(case, stats=None):
             want = [(c, max(0, p - fl), min(sizes[c], p + fl + 1)) for c, p in locs]
             if w is not None and w != want:
                 out.append(Failure("C10:get_windows", {"flank": fl, "expected": want, "actual": w}))
+            # locations mapped into the intervals that contain them (half open: start <= p < stop, same chromosome), as positions relative to the interval start
+            if locs == locs_all and ivs == ivs_all and ivs:
+                slocs = sorted(locs, key=lambda t: (names.index(t[0]), t[1]))
+
+                def mapped():
+                    m_ = gi.map_locations(LocationEntry([c for c, p in slocs], np.array([p for c, p in slocs], dtype=int)))
+                    return list(zip(m_.chromosome.tolist(), np.asarray(m_.position).tolist()))
+                got_m = guard("map_locations", mapped)
+                want_m = [(str(i_), p - a) for i_, (c, a, b, s_) in enumerate(ivs) for c2, p in slocs if c2 == c and a <= p < b]
+                if got_m is not None and got_m != want_m:
+                    out.append(Failure("C10:map_locations", {"expected": want_m, "actual": got_m, "intervals": [x[:3] for x in ivs], "locations": slocs}))
             # binned counts: every chromosome has its own bins of the given width (the last one possibly shorter), filled by its own locations only
             if locs == locs_all:
                 from bionumpy.genomic_data.binned_genome import BinnedGenome
